@@ -1,8 +1,9 @@
 #!/bin/bash
 # usage: tools/scratch.sh <patchdir> <prop> [hv args]   -- debugging helper: apply a patch to a scratch copy and run one check
 set -e
+pd=$(realpath "$1")
 d=$(mktemp -d /tmp/hvscr-XXXX); mkdir -p $d/repo
 cp -r /repo/src /repo/Cargo.toml /repo/Cargo.lock $d/repo/
-(cd $d/repo && patch -s -p1 -i "$(realpath $1)/patch.diff")
+(cd $d/repo && patch -s -p1 -i "$pd/patch.diff")
 HV_REPO=$d/repo HV_CACHE=/verif/.cache/seed0 HV_EVIDENCE_DIR=$d/ev /verif/hv check $2 "${@:3}" || true
 rm -rf $d
